@@ -741,10 +741,13 @@ def main():
         from translate_run import emit_run_gen  # noqa
 
         nrn = emit_run_gen(outdir)
+        from translate_cfg import emit_cfg  # noqa
+
+        ncf = emit_cfg(outdir)
     except TranslateError as e:
         print(str(e))
         sys.exit(2)
-    print(f"translate: {nr} parser rules, {nc} instruction classes, {nl} leaf functions, {nk} key/index classification functions, {ns} wrapper functions, {na} condition-combination functions, {ng} global-graph/neighbourhood functions, {nsr} path-search functions, {nsv} worklist-solver functions, {nct} constraint-initialisation functions, {nrx} regex-engine functions, {ngr} group-verdict functions, {nrn} orchestration functions -> {outdir}")
+    print(f"translate: {nr} parser rules, {nc} instruction classes, {nl} leaf functions, {nk} key/index classification functions, {ns} wrapper functions, {na} condition-combination functions, {ng} global-graph/neighbourhood functions, {nsr} path-search functions, {nsv} worklist-solver functions, {nct} constraint-initialisation functions, {nrx} regex-engine functions, {ngr} group-verdict functions, {nrn} orchestration functions, {ncf} CFG-construction functions -> {outdir}")
 
 
 if __name__ == "__main__":
